@@ -15,7 +15,7 @@ LEVEL = "fault_enumeration"
 ENGINE = "E1 virtual-time actor simulator + fault injection + Hypothesis"
 TECHNIQUE = "fault injection on a deterministic actor simulator: generated target-host lists x daemon join orders x ack delays x one fault; call-log invariants as oracle"
 RULE = (
-    "Generated: 1-4 distinct (ip, port) target hosts from {127.0.0.1, three remote ips} x {9200, 9201}, each repeated 1-3 times "
+    "Generated: 1-4 distinct (ip, port) target hosts from {127.0.0.1, three remote ips} x {9200, 9201}, each repeated 1-3 times (in a third of the cases one of them comes back later in the list: A,B,A) "
     "(several nodes per host); externally provisioned or not; preserve-install on/off; race known to the race store or not; remote "
     "daemons already registered or joining at {0, 0.5, 3, 9} s in any order, optionally an unrelated daemon; per-message delays from "
     "{0, 1/1024, 0.25, 2, 7} s; zero or one fault: the launcher of the k-th host raises, or a remote daemon leaves the convention at "
@@ -38,6 +38,10 @@ def _case(draw):
     n = draw(st.integers(1, 4))
     pairs = draw(st.lists(st.tuples(st.integers(0, 3), st.integers(0, 1)), min_size=n, max_size=n, unique=True))
     nodes = [[ip, port, draw(st.sampled_from([1, 1, 2, 3]))] for ip, port in pairs]
+    if n >= 2 and draw(st.integers(0, 2)) == 0:
+        # the same host:port comes back later in the list (A,B,A): its nodes are not adjacent entries
+        back = draw(st.integers(0, n - 2))
+        nodes.append([nodes[back][0], nodes[back][1], draw(st.sampled_from([1, 1, 2]))])
     remote_ips = sorted({ip for ip, _ in pairs if ip != 0})
     case = {
         "nodes": nodes,
@@ -172,6 +176,8 @@ def run_case(case, obs):
     # ---- classes
     if any(ip != 0 for ip, _, _ in case["nodes"]):
         obs.cls("remote-host")
+    if len({(ip, port) for ip, port, _ in case["nodes"]}) < len(case["nodes"]):
+        obs.cls("host-comes-back-later-in-the-list")
     if any(rep > 1 for _, _, rep in case["nodes"]):
         obs.cls("multi-node-host")
     sent = [m[2] for m in r.rt.send_log if m[3] == "StartNodes"]
